@@ -29,6 +29,12 @@ From SFV Require Import Base.
 Open Scope string_scope.
 Open Scope list_scope.
 
+(* sequencing written as a plain match (same meaning as Base.bind; the guard checker of the
+   structural walk below does not have to unfold a constant) *)
+Local Set Warnings "-notation-overridden".
+Local Notation "'do' x <- r ; k" := (match r with Ok x => k | Err e => Err e end)
+  (at level 200, x name, r at level 100, k at level 200, only parsing).
+
 (* ------------------------------------------------------------------ YAML trees *)
 (* floats: only what the parser can observe (truthiness, == 2 / 3, nan != nan) *)
 Inductive fl := FlNan | FlZero | FlInt (z : Z) | FlOther.
@@ -253,7 +259,7 @@ Definition include_file_spec := mkSpec "include_file" [] [].
 (* ------------------------------------------------------------------ random_reference bookkeeping *)
 (* what get_referent_name will find in a StructuredValue's first argument *)
 Inductive defkind := DKStr | DKOther | DKNoDef.   (* SimpleValue(str) | SimpleValue(other) | no .definition *)
-Inductive rrv := RRok | RRdge | RRcrash (e : string).
+Inductive rrv := RRok | RRdge | RRkey | RRunbound | RRattr.   (* name | not a name | KeyError 'to' | UnboundLocalError | no .definition *)
 Definition out := (defkind * list rrv)%type.
 
 Definition rr_site := "data_generator_runtime.py:get_referent_name".
@@ -261,7 +267,7 @@ Definition rr_of_kind (k : defkind) : rrv :=
   match k with
   | DKStr => RRok
   | DKOther => RRdge
-  | DKNoDef => RRcrash ("AttributeError:" ++ rr_site)%string
+  | DKNoDef => RRattr
   end.
 
 Inductive sargs := SAList (l : list defkind) | SAKw (l : list (string * defkind)).
@@ -279,11 +285,11 @@ Fixpoint last_assoc {A} (k : string) (l : list (string * A)) : option A :=
 
 Definition rr_verdict (a : sargs) : rrv :=
   match a with
-  | SAList [] | SAKw [] => RRcrash ("UnboundLocalError:" ++ rr_site)%string
+  | SAList [] | SAKw [] => RRunbound
   | SAList (k :: _) => rr_of_kind k
   | SAKw l => match last_assoc "to" l with
               | Some k => rr_of_kind k
-              | None => RRcrash ("KeyError:" ++ rr_site)%string
+              | None => RRkey
               end
   end.
 
@@ -291,25 +297,29 @@ Definition rr_verdict (a : sargs) : rrv :=
 Inductive mode := MField | MStmt (top : bool).
 
 (* iterate a function over a list, concatenating the random_reference verdicts in order *)
-Fixpoint each (f : yaml -> result out) (l : list yaml) : result (list defkind * list rrv) :=
+(* (the function is a parameter outside the `fix`, as in List.map, so that the structural walk
+   below may pass itself) *)
+Definition each (f : yaml -> result out) : list yaml -> result (list defkind * list rrv) :=
+  fix each l :=
   match l with
   | [] => Ok ([], [])
   | x :: r =>
     do a <- f x;
-    do b <- each f r;
+    do b <- each r;
     Ok (fst a :: fst b, snd a ++ snd b)
   end.
 
 (* keyword arguments / fields: coerce the key, then parse the value *)
-Fixpoint each_kv (check_name : string -> result unit) (f : yaml -> result out) (kv : kvs)
-  : result (list (string * defkind) * list rrv) :=
+Definition each_kv (check_name : string -> result unit) (f : yaml -> result out)
+  : kvs -> result (list (string * defkind) * list rrv) :=
+  fix each_kv kv :=
   match kv with
   | [] => Ok ([], [])
   | (k, v) :: r =>
     do name <- coerce_to_string k;
     do _ <- check_name name;
     do a <- f v;
-    do b <- each_kv check_name f r;
+    do b <- each_kv r;
     Ok ((name, fst a) :: fst b, snd a ++ snd b)
   end.
 
@@ -379,10 +389,11 @@ Section Walk.
 
   (* The values of an element are parsed where they stand (so that the recursion is structural);
      the element's function then picks the results up in the order the code evaluates them. *)
-  Fixpoint map_kv {R} (f : yaml -> yaml -> R) (kv : kvs) : list (yaml * R) :=
+  Definition map_kv {R} (f : yaml -> yaml -> R) : kvs -> list (yaml * R) :=
+    fix map_kv kv :=
     match kv with
     | [] => []
-    | (k, v) :: r => (k, f k v) :: map_kv f r
+    | (k, v) :: r => (k, f k v) :: map_kv r
     end.
 
   Fixpoint lookup_res {R} (k : string) (l : list (yaml * R)) : option R :=
@@ -636,6 +647,56 @@ Fixpoint mapM {A B} (f : A -> result B) (l : list A) : result (list B) :=
 
 Definition inclusion_site := "parse_recipe_yaml.py:relpath_from_inclusion_element".
 
+(* parse_included_file for one `include_file` element of the file `key`; `load` parses the included file *)
+Definition include_one (E : env) (load : string -> yaml -> ctx -> result ctx) (key : string)
+           (y : yaml) (c : ctx) : result ctx :=
+  do kv <- as_dict "parse_recipe_yaml.py:parse_element" y;
+  do _ <- parse_element include_file_spec kv;
+  do rel <- py_attr inclusion_site kv "include_file" false;
+  do abs <- py_startswith_slash inclusion_site rel;
+  if abs then dge else                                  (* Included file paths must be relative *)
+  match rel with
+  | YStr relpath =>
+    match find_file (key, relpath) (fenv E) with
+    | Some FMissing => dge                              (* Cannot load include file *)
+    | Some FDir => crash "IsADirectoryError" "parse_recipe_yaml.py:parse_included_file"
+    | Some (FBad how) => load_failure how
+    | Some (FDoc k d) => load k d c
+    | None => Err BadOracle
+    end
+  | _ => crash "TypeError" "parse_recipe_yaml.py:parse_included_file"
+  end.
+
+(* parse_included_files: the elements with a truthy include_file, in order *)
+Definition include_all (E : env) (load : string -> yaml -> ctx -> result ctx) (key : string)
+  : list (yaml * bool) -> ctx -> result ctx :=
+  fix go l c :=
+  match l with
+  | [] => Ok c
+  | (y, false) :: r => go r c
+  | (y, true) :: r => do c' <- include_one E load key y c; go r c'
+  end.
+
+(* the rest of parse_top_level_elements, after the included files *)
+Definition top_level_rest (E : env) (cats : list (string * yaml)) (c1 : ctx) : result ctx :=
+  let site := "parse_recipe_yaml.py:parse_top_level_elements" in
+  do okvs <- mapM (as_dict site) (of_category "option" cats);
+  (* context.macros.update({obj["macro"]: obj for obj in ...}) *)
+  do ms <- mapM (fun y => do k <- py_getitem site y "macro";
+                          do _ <- py_hash site k;
+                          do kv <- as_dict site y;
+                          Ok (k, kv)) (of_category "macro" cats);
+  do specs <- mapM (fun y => py_getitem site y "plugin") (of_category "plugin" cats);
+  do ps <- mapM (resolve_plugin E) specs;
+  do vals <- mapM (fun y => py_getitem "parse_recipe_yaml.py:parse_version" y "snowfakery_version")
+                  (of_category "snowfakery_version" cats);
+  do ver <- parse_version vals;
+  Ok (mkCtx (c_stmts c1 ++ of_category "statement" cats)
+            (c_opts c1 ++ okvs)
+            (c_macros c1 ++ ms)
+            (c_parser c1 || existsb (fun b => b) ps)
+            ver).
+
 (* parse_file (after a successful load) + parse_top_level_elements; fuel = depth of file inclusion *)
 Fixpoint load_file (E : env) (n : nat) (key : string) (doc : yaml) (c : ctx) : result ctx :=
   match n with
@@ -647,46 +708,8 @@ Fixpoint load_file (E : env) (n : nat) (key : string) (doc : yaml) (c : ctx) : r
       (* parse_included_files: [obj for obj in data if obj.get("include_file")] *)
       do incl <- mapM (fun y => do v <- py_get "parse_recipe_yaml.py:parse_included_files" y "include_file";
                                 Ok (y, truthy_opt v)) data;
-      do c1 <- (fix go (l : list (yaml * bool)) (c : ctx) : result ctx :=
-                  match l with
-                  | [] => Ok c
-                  | (y, false) :: r => go r c
-                  | (y, true) :: r =>
-                    do kv <- as_dict "parse_recipe_yaml.py:parse_element" y;
-                    do _ <- parse_element include_file_spec kv;
-                    do rel <- py_attr inclusion_site kv "include_file" false;
-                    do abs <- py_startswith_slash inclusion_site rel;
-                    if abs then dge else
-                    match rel with
-                    | YStr relpath =>
-                      match find_file (key, relpath) (fenv E) with
-                      | Some FMissing => dge            (* Cannot load include file *)
-                      | Some FDir => crash "IsADirectoryError" "parse_recipe_yaml.py:parse_included_file"
-                      | Some (FBad how) => load_failure how
-                      | Some (FDoc k d) => do c' <- load_file E n' k d c; go r c'
-                      | None => Err BadOracle
-                      end
-                    | _ => crash "TypeError" "parse_recipe_yaml.py:parse_included_file"
-                    end
-                  end) incl c;
-      let opts := of_category "option" cats in
-      do okvs <- mapM (as_dict "parse_recipe_yaml.py:parse_top_level_elements") opts;
-      (* context.macros.update({obj["macro"]: obj for obj in ...}) *)
-      do ms <- mapM (fun y => do k <- py_getitem "parse_recipe_yaml.py:parse_top_level_elements" y "macro";
-                              do _ <- py_hash "parse_recipe_yaml.py:parse_top_level_elements" k;
-                              do kv <- as_dict "parse_recipe_yaml.py:parse_top_level_elements" y;
-                              Ok (k, kv)) (of_category "macro" cats);
-      do specs <- mapM (fun y => py_getitem "parse_recipe_yaml.py:parse_top_level_elements" y "plugin")
-                       (of_category "plugin" cats);
-      do ps <- mapM (resolve_plugin E) specs;
-      do vals <- mapM (fun y => py_getitem "parse_recipe_yaml.py:parse_version" y "snowfakery_version")
-                      (of_category "snowfakery_version" cats);
-      do ver <- parse_version vals;
-      Ok (mkCtx (c_stmts c1 ++ of_category "statement" cats)
-                (c_opts c1 ++ okvs)
-                (c_macros c1 ++ ms)
-                (c_parser c1 || existsb (fun b => b) ps)
-                ver)
+      do c1 <- include_all E (load_file E n') key incl c;
+      top_level_rest E cats c1
     | _ => dge                                          (* Recipe file should be a list *)
     end
   end.
@@ -725,7 +748,9 @@ Fixpoint rr_scan (l : list rrv) : result unit :=
   | [] => Ok tt
   | RRok :: r => rr_scan r
   | RRdge :: _ => dge
-  | RRcrash e :: _ => Err (Internal e)
+  | RRkey :: _ => crash "KeyError" rr_site            (* kwargs["to"] *)
+  | RRunbound :: _ => crash "UnboundLocalError" rr_site  (* neither args nor kwargs: `ret` is never assigned *)
+  | RRattr :: _ => crash "AttributeError" rr_site     (* args[0].definition on a StructuredValue / ObjectTemplate *)
   end.
 
 Fixpoint top_statements (inc : string -> result (list rrv)) (l : list yaml) : result (list rrv) :=
@@ -775,3 +800,162 @@ Fixpoint env_crashes_plugins (l : list (string * pres)) : list string :=
   end.
 Definition env_crashes (E : env) : list string :=
   env_crashes_files (fenv E) ++ env_crashes_plugins (penv E).
+
+(* ------------------------------------------------------------------ correspondence cases (static half) *)
+Inductive outcome := OAccept | OReject | OCrash (e : string).
+
+Definition outcome_eqb (a b : outcome) : bool :=
+  match a, b with
+  | OAccept, OAccept | OReject, OReject => true
+  | OCrash x, OCrash y => String.eqb x y
+  | _, _ => false
+  end.
+
+(* Python's recursion limit plays the role of the fuel: exhaustion is observed as RecursionError *)
+Definition classify {A} (r : result A) : option outcome :=
+  match r with
+  | Ok _ => Some OAccept
+  | Err (DGE _) => Some OReject
+  | Err (Internal e) => Some (OCrash e)
+  | Err OutOfFuel => Some (OCrash "RecursionError")
+  | Err _ => None
+  end.
+
+Definition FFUEL := 12%nat.      (* depth of include_file nesting followed *)
+Definition MFUEL := 120%nat.     (* depth of macro expansion followed *)
+
+(* ================================================================== dynamic half: the wrappers *)
+(* An exception (a subclass of Exception; KeyboardInterrupt / SystemExit are not considered) raised at a
+   leaf of the execution travels outwards through the frames between the leaf and generate()'s caller. *)
+Inductive exn := EDGE | EPy (name : string).          (* any DataGenError subclass | any other class *)
+
+Definition exn_eqb (a b : exn) : bool :=
+  match a, b with
+  | EDGE, EDGE => true
+  | EPy x, EPy y => String.eqb x y
+  | _, _ => false
+  end.
+
+Inductive frame :=
+| FSimpleRender            (* SimpleValue.render: UndefinedError -> DataGenNameError, Exception -> DataGenValueError *)
+| FDefEH                   (* FieldDefinition.exception_handling: Exception -> fix_exception(..) *)
+| FFieldFactory            (* FieldFactory.generate_value: Exception -> fix_exception(..) *)
+| FTemplateEH              (* ObjectTemplate.exception_handling: DataGenError re-raised, Exception -> DataGenError *)
+| FCountConv (has_definition : bool)
+                           (* _evaluate_count: except (ValueError, TypeError): DataGenValueError(f"..{self.count_expr.definition}..") *)
+| FGenerate.               (* generate: except DataGenError: add the file name, re-raise; nothing else is caught *)
+
+Definition is_value_or_type_error (e : exn) : bool :=
+  match e with
+  | EPy n => String.eqb n "ValueError" || String.eqb n "TypeError"
+  | EDGE => false
+  end.
+
+(* fix_exception returns a DataGenError for every input *)
+Definition through (f : frame) (e : exn) : exn :=
+  match f with
+  | FSimpleRender | FDefEH | FFieldFactory | FTemplateEH => EDGE
+  | FCountConv has_def =>
+    if is_value_or_type_error e then (if has_def then EDGE else EPy "AttributeError") else e
+  | FGenerate => e
+  end.
+
+Definition converts (f : frame) : bool :=
+  match f with FSimpleRender | FDefEH | FFieldFactory | FTemplateEH => true | _ => false end.
+
+(* the way from generate() down to a leaf, outermost step first *)
+Inductive step :=
+| SVarExpr                 (* VariableDefinition.execute -> evaluate -> expression.render: no handler *)
+| SNested                  (* a template used as a definition (ObjectTemplate.render -> generate_rows): no handler *)
+| STmplForEach             (* _evaluate_for_each: exception_handling("Cannot evaluate `for_each` definition") *)
+| STmplCount (has_definition : bool)   (* _evaluate_count, count_expr is a SimpleValue or not *)
+| STmplField               (* rows loop: exception_handling("Cannot generate"), _generate_fields:
+                              exception_handling("Problem rendering value"), FieldFactory.generate_value *)
+| STmplFriend              (* rows loop: exception_handling("Cannot generate") -> loop_over_templates_once(friends) *)
+| SCallArg.                (* StructuredValue.render: exception_handling("Cannot evaluate function") -> evaluate_function -> arg.render *)
+
+Inductive leaf :=
+| LCtx                     (* parent_context.child_context(..): RuntimeContext.__init__ (e.g. the Faker locale) *)
+| LCompile                 (* SimpleValue.evaluator: context.get_evaluator inside exception_handling("Cannot parse value") *)
+| LEval                    (* SimpleValue.render: evaluator(context) / val.render() inside try *)
+| LPost                    (* SimpleValue.render: look_for_number(val), after the try *)
+| LLookup                  (* StructuredValue.render: name resolution before the guarded call *)
+| LFunc                    (* StructuredValue.render: the function itself, inside exception_handling *)
+| LCountConv               (* _evaluate_count: int(float(..)) — below a STmplCount step *)
+| LForEachType             (* ForEachVariableDefinition.evaluate / iter(val) — below a STmplForEach step *)
+| LRowSetup                (* rows loop: register_variable, generate_id, register_object, remember_row *)
+| LWrite.                  (* _generate_row: exception_handling("Cannot write row") inside the rows loop *)
+
+(* frames of a step / a leaf, innermost first *)
+Definition step_frames (s : step) : list frame :=
+  match s with
+  | SVarExpr | SNested => []
+  | STmplForEach => [FTemplateEH]
+  | STmplCount hd => [FCountConv hd]
+  | STmplField => [FFieldFactory; FTemplateEH; FTemplateEH]
+  | STmplFriend => [FTemplateEH]
+  | SCallArg => [FDefEH]
+  end.
+
+Definition leaf_frames (l : leaf) : list frame :=
+  match l with
+  | LCtx | LPost | LLookup | LCountConv => []
+  | LCompile | LFunc => [FDefEH]
+  | LEval => [FSimpleRender]
+  | LForEachType | LRowSetup => [FTemplateEH]
+  | LWrite => [FTemplateEH; FTemplateEH]
+  end.
+
+(* all frames from the leaf outwards *)
+Fixpoint frames (path : list step) (l : leaf) : list frame :=
+  match path with
+  | [] => leaf_frames l ++ [FGenerate]
+  | s :: r => frames r l ++ step_frames s
+  end.
+
+Definition escape (path : list step) (l : leaf) (e : exn) : exn :=
+  fold_left (fun e f => through f e) (frames path l) e.
+
+Definition protected_path (path : list step) (l : leaf) : bool := existsb converts (frames path l).
+
+(* generate(): nothing is executed unless validate succeeds; what the execution then does is an oracle
+   (rows written, and possibly an exception raised at some leaf) *)
+Record dynamic := mkDyn { d_rows : nat; d_fault : option (list step * leaf * exn) }.
+
+Definition exn_err (e : exn) : err :=
+  match e with EDGE => DGE "" | EPy n => Internal n end.
+
+Definition generate (E : env) (ffuel mfuel : nat) (doc : yaml) (dyn : dynamic) : result unit * nat :=
+  match validate E ffuel mfuel doc with
+  | Err e => (Err e, O)
+  | Ok _ =>
+    match d_fault dyn with
+    | None => (Ok tt, d_rows dyn)
+    | Some (p, l, e) => (Err (exn_err (escape p l e)), d_rows dyn)
+    end
+  end.
+
+(* ------------------------------------------------------------------ correspondence cases *)
+Inductive case :=
+| CDoc (E : env) (doc : yaml) (expected : outcome)            (* static verdict on a loaded document *)
+| CText (how : loaderr) (expected : outcome)                  (* text PyYAML cannot load *)
+| CFault (path : list step) (l : leaf) (e : exn) (expected : exn).   (* an injected run-time exception *)
+
+Definition check_case (c : case) : bool :=
+  match c with
+  | CDoc E doc expected =>
+    match validate E FFUEL MFUEL doc with
+    | Err Unsupported => true
+    | r => match classify r with Some o => outcome_eqb o expected | None => false end
+    end
+  | CText how expected =>
+    match classify (@load_failure unit how) with Some o => outcome_eqb o expected | None => false end
+  | CFault p l e expected => exn_eqb (escape p l e) expected
+  end.
+
+(* cases outside the modelled fragment (a parser-macro plugin is declared) *)
+Definition case_unsupported (c : case) : bool :=
+  match c with
+  | CDoc E doc _ => match validate E FFUEL MFUEL doc with Err Unsupported => true | _ => false end
+  | _ => false
+  end.
